@@ -120,7 +120,7 @@ pub fn c03(cx: &RunCtx) {
 // ---------------------------------------------------------------- C04
 fn c04_dom<D: Dom>(cx: &RunCtx) {
     let k = [Kind::Value];
-    let d = if quick(cx) { 6 } else { 8 };
+    let d = if quick(cx) { 7 } else { 8 };
     tok_run::<D>(cx, "E-TOK Σ_ops", sigma_ops(D::EV), d, 4, ONLY_DEFAULT, &k, None, 2400);
 }
 pub fn c04(cx: &RunCtx) {
